@@ -2,7 +2,10 @@
 
 package ring
 
-import "os"
+import (
+	"context"
+	"os"
+)
 
 // C09 (tokens file) - an interrupted tokens-file write never leaves a corrupt
 // file behind. The file system is the engine's model (create / write / close /
@@ -69,4 +72,65 @@ func HarnessC09_TokensFile() {
 	_ = os.Remove(path)
 	_ = os.Remove(path + ".tmp")
 	vfCover("c09-tokensfile-done")
+}
+
+func init() { vfRegisterBubble("HarnessC09_RestartFromFile", HarnessC09_RestartFromFile) }
+
+// HarnessC09_RestartFromFile: restart with a tokens file. The file's tokens are
+// used exactly when the ring holds no entry for the instance; an existing ring
+// entry wins; with its full token count the instance comes back ACTIVE.
+func HarnessC09_RestartFromFile() {
+	now := vfNowSym()
+	path := "/tmp/vf_c09_restart_tokens.json"
+	_ = os.Remove(path)
+	_ = os.Remove(path + ".tmp")
+	nFile := vfChoice("file_tokens", 3) // 0: no file
+	var fileToks Tokens
+	if nFile > 0 {
+		fileToks = Tokens(vfSymTokens("file_tok", nFile))
+		vfAssert(fileToks.StoreToFile(path) == nil, "C09 storing tokens succeeds")
+	}
+	own := &vfOwnGen{present: vfChoice("own_present", 2) == 1}
+	ownTok := 0
+	if own.present {
+		ownTok = 1 + vfChoice("own_ntok", 2)
+	}
+	in := vfArbRing(1, own, ownTok, now)
+	for _, t := range fileToks {
+		for _, ing := range in.Ingesters {
+			for _, u := range ing.Tokens {
+				vfAssume(t != u)
+			}
+		}
+	}
+	store := &vfKV{val: vfCloneDesc(in)}
+	l := vfNewLifecycler(store, 2, &vfRandSrc{max: 4})
+	l.cfg.TokensFilePath = path
+	vfAssert(l.initRing(context.Background()) == nil, "C09 start-up succeeds")
+	out := store.val.(*Desc)
+	vfAssert(vfForeignUntouched(in, out), "C09 start-up edits only the lifecycler's own entry")
+	me, ok := out.Ingesters[vfOwnID]
+	vfAssert(ok, "C09 the instance is registered at start-up")
+	if !own.present {
+		vfAssert(me.RegisteredTimestamp == now, "C09 a fresh registration time when the ring had no entry")
+		if nFile > 0 {
+			vfAssert(vfSameTokens(me.Tokens, fileToks), "C09 tokens from the tokens file are kept as they are")
+			if nFile >= 2 {
+				vfAssert(me.State == ACTIVE, "C09 with its full token count from the file the instance comes back active")
+			} else {
+				vfAssert(me.State == PENDING, "C09 with too few tokens in the file the instance starts from pending")
+			}
+			vfCover("c09-restart-from-file")
+		} else {
+			vfAssert(len(me.Tokens) == 0 && me.State == PENDING, "C09 without file and ring entry the instance starts from pending without tokens")
+		}
+	} else {
+		vfAssert(me.RegisteredTimestamp == own.reg, "C09 registration time recorded in the ring is kept")
+		if own.st != LEAVING {
+			vfAssert(vfSameTokens(me.Tokens, own.toks), "C09 tokens recorded in the ring win over the tokens file")
+		}
+		vfCover("c09-restart-ring-wins")
+	}
+	_ = os.Remove(path)
+	vfCover("c09-restartfile-done")
 }
